@@ -2,6 +2,7 @@ package hx
 
 import (
 	"fmt"
+	"os"
 	"sort"
 	"strings"
 	"testing"
@@ -151,6 +152,25 @@ func checkCleanupOnRestart(h *hist, c *chanCtx, oc *oCleanup) int {
 		r2.fenceWait(h.t)
 		if !ok || st2.Status() != terminalOf(want.Status) {
 			h.fail("C09/restart-no-settle", "channel persisted in %s did not settle in %s after CompleteCleanupOnRestart (now %s)", datatransfer.Statuses[want.Status], datatransfer.Statuses[terminalOf(want.Status)], datatransfer.Statuses[st2.Status()])
+		}
+		// the two events applied on the way (the restart kick, then the completed cleanup) are
+		// announced like any other applied event: once each, in order, with the resulting state
+		var codes []string
+		for _, e := range r2.pub.entries(c.chid) {
+			codes = append(codes, datatransfer.Events[e.Code]+"@"+datatransfer.Statuses[e.Vec.Status])
+		}
+		wantCodes := []string{"CompleteCleanupOnRestart@" + datatransfer.Statuses[want.Status], "CleanupComplete@" + datatransfer.Statuses[terminalOf(want.Status)]}
+		if strings.Join(codes, ",") != strings.Join(wantCodes, ",") {
+			key := "C09/restart-events"
+			if os.Getenv("VERIF_PROP") == "C17" {
+				key = "C17/applied-event-not-announced"
+			}
+			h.fail(key, "restart of a channel persisted in %s announced %v to the subscriber, the applied events are %v", datatransfer.Statuses[want.Status], codes, wantCodes)
+		}
+		if os.Getenv("VERIF_PROP") == "C17" {
+			stats.For("C17").Eval()
+			stats.For("C17").Nontrivial(stats.FP("cleanup-restart-events", want.Status, c.spec.SelfInitiator, c.spec.Pull))
+			stats.For("C17").Class("events_of_a_cleanup_finished_on_restart")
 		}
 		cl := r2.env.Cleanups(c.chid)
 		un := r2.env.Unprotects(c.chid.String())
